@@ -202,6 +202,9 @@ pub fn finalize(
             f.write_all(new_)?;
             f.write_all(b"\n")?;
         }
+    } else {
+        // A ref-map left behind by an earlier run would describe renames this run did not make.
+        let _ = std::fs::remove_file(debug_dir.join("ref-map"));
     }
 
     // Load exported marks so we can resolve mark references to object ids
